@@ -398,6 +398,9 @@ func c14Run(t *testing.T, sc Scenario, res *Result) {
 	r := newRng(sc.Seed, 0xc14)
 	var cases []*c14case
 	prop := c14Prop(sc, &cases)
+	if sc.Seed%5 == 2 {
+		res.inc("scenarios_with_a_user_lock")
+	}
 	if mix(sc.Seed, 0xc57)%4 == 0 {
 		// the same script on the T of a Custom generator function: its goroutines, cleanups and context belong to
 		// that call of the function, and a failure signalled on it falsifies the test case
